@@ -1,5 +1,6 @@
 import Driver.Proto
 import Model.FixedText
+import Model.FixedTextFloat
 import Generated.Facts
 open Proto FixedText
 
@@ -22,6 +23,16 @@ def target? : String → Option Target
   | "u8" => some ⟨8, false⟩ | "u16" => some ⟨16, false⟩ | "u32" => some ⟨32, false⟩ | "u64" => some ⟨64, false⟩
   | "uint" => some ⟨64, false⟩ | "uptr" => some ⟨64, false⟩
   | _ => none
+
+/-- wire format of a float of the target width: the IEEE bit pattern in hex -/
+def fltHex (bits : Nat) (x : Flt) : String :=
+  if bits == 32 then natToHex (Fixed.encode32 x) else natToHex (GoSem.F64.toBits x)
+
+def fltOfHex? (bits : Nat) (h : String) : Option Flt :=
+  match hexToNat? h with
+  | some n => if bits == 32 then (if n < 2^32 then some (Fixed.decode32 n) else none)
+              else (if n < 2^64 then some (GoSem.F64.decode n) else none)
+  | none => none
 
 def step (_ : Unit) (line : String) : Unit × String :=
   let out :=
@@ -48,6 +59,24 @@ def step (_ : Unit) (line : String) : Unit × String :=
       match v.toInt? with
       | some z => bytesHex (commaNum (intStr z))
       | none => "bad-op"
+    | ["pf", b, h] =>
+      match b.toNat?, hexBytes? h with
+      | some bits, some t => fltHex bits (parseFloatGo bits t)
+      | _, _ => "bad-op"
+    | ["ff", b, h] =>
+      match b.toNat? with
+      | some bits =>
+        match fltOfHex? bits h with
+        | some x => bytesHex (formatFloatGo bits x)
+        | none => "bad-op"
+      | none => "bad-op"
+    | ["cfm", ty, d, raw, b] =>
+      match cfg? d, raw.toInt?, b.toNat? with
+      | some (_, mult), some r, some bits =>
+        let a := if ty == "128" then asF128 bits mult r else asF64 bits mult r
+        let c := if ty == "128" then checkedAsF128 bits mult r else checkedAsF64 bits mult r
+        fltHex bits a ++ " " ++ (match c with | some v => "ok:" ++ fltHex bits v | none => "nofit")
+      | _, _, _ => "bad-op"
     | ["parse", ty, d, h] =>
       match cfg? d, hexBytes? h with
       | some (places, mult), some s =>
